@@ -27,7 +27,7 @@ def check(ctx):
     cur = WC.current()
     methods = WCm.decl_methods(set(cur) | set(WC.load_ref())) | {"ast_transforms.fix_atomic_specifiers", "ast_transforms._fix_atomic_specifiers_once"}
     n = WCm.run_group(ctx, "R-C03.1", methods, lambda label, field: not WCm.is_coord_field(label, field) and not label.startswith("call:_parse_error")
-                      and not label.startswith("call:_add_identifier") and not label.startswith("call:_add_typedef_name") and field != "typedef_namespace",
+                      and not label.startswith("call:_add_identifier") and not label.startswith("call:_add_typedef_name") and not (label == "call:_build_declarations" and field == "p2"),
                       "declaration tree wiring deviates from C's declarator / specifier rules")
     ctx.unit("declaration productions and builders compared", n)
     ctx.require_instances("R-C03.1", 150)
